@@ -27,7 +27,10 @@ def showState (d : DSt) : String :=
   let sup := ",".intercalate (toks.map fun t => toString (s.supply t))
   let holders := (List.range d.nUsers).map (· + 1) ++ [communityPool]
   let bal := ",".intercalate (holders.flatMap fun u => toks.map fun t => toString (s.bal u t))
-  s!"pool={poolS} batches={bS} esc={esc} sup={sup} bal={bal} last={s.lastObserved}"
+  let usage := ",".intercalate (toks.map fun t => match s.usage t with
+    | none => "-"
+    | some u => s!"{u.start}:{u.total}")
+  s!"pool={poolS} batches={bS} esc={esc} sup={sup} bal={bal} last={s.lastObserved} usage={usage}"
 
 def showRes : Res → String
   | .ok => "ok"
